@@ -514,16 +514,29 @@ def updateObj (w : PWorld) (o : Oid) (kvs : List (Name × Val)) : Except PErr PW
   | .error e => .error e
   | .ok (w1, evs, q) => if evs.isEmpty then .ok w1 else flushQueue w1 evs q
 
+/-- src: discard_events (no batch open): set the flag, save copies of `_events` / `_state_watchers` (both
+empty), run the assignments, restore flag and queues — whatever the assignments queued is dropped, no watcher
+runs.  `Parameter.__set__` still calls `_update_deps(name)` on the assigned object itself; the rebinding
+callbacks of OTHER owners travel with the dropped watchers. -/
+def discardObj (w : PWorld) (o : Oid) (kvs : List (Name × Val)) : Except PErr PWorld :=
+  match setAllBatched w o [] [] kvs with
+  | .error e => .error e
+  | .ok (w1, _, _) => .ok w1
+
 inductive Step
   | new (cls : Nat) (vals : List (Name × Val))
   | set (o : Oid) (p : Name) (v : Val)
-  | update (o : Oid) (kvs : List (Name × Val))      -- distinct keys
+  /-- `o.param.update(k1=v1, …)` (distinct keys) or `with batch_call_watchers(o): o.k1 = v1; …` (keys may repeat) -/
+  | update (o : Oid) (kvs : List (Name × Val))
+  /-- `with discard_events(o): o.k1 = v1; …` -/
+  | discard (o : Oid) (kvs : List (Name × Val))
   deriving Repr, DecidableEq
 
 def runStep (w : PWorld) : Step → Except PErr PWorld
   | .new cls vals => newObj w cls vals
   | .set o p v => setParam w o p v
   | .update o kvs => updateObj w o kvs
+  | .discard o kvs => discardObj w o kvs
 
 /-- a spec is inside the model: a non-empty path of object-valued parameters, `param` only at depth 1 -/
 def wfSpecB (s : PathSpec) : Bool := !s.path.isEmpty && (s.leaf != "param" || s.path.length == 1)
